@@ -176,7 +176,8 @@ def main(argv=None) -> int:
     known_mechs = {e["mechanism"]: e for e in known.get("known", []) if e["property"] == pid}
     lines: list[str] = []
     unlisted = 0
-    rep_dir = os.path.join(VERIF_DIR, "replays", pid)
+    out_root = os.environ.get("VERIF_OUT_DIR", VERIF_DIR)   # the mutation self-test redirects evidence and replays
+    rep_dir = os.path.join(out_root, "replays", pid)
     for mech, lst in sorted(violations.items()):
         if mech in known_mechs:
             lines.append(f"KNOWN-FINDING: property={pid} {mech}: {known_mechs[mech]['what']} (seen {len(lst)}+ times)")
@@ -217,7 +218,7 @@ def main(argv=None) -> int:
         "violations": violation_count,
     }
     if not args.replay:
-        dump_json(os.path.join(VERIF_DIR, "evidence", f"{pid}.json"), evidence)
+        dump_json(os.path.join(out_root, "evidence", f"{pid}.json"), evidence)
 
     for ln in lines:
         print(ln)
